@@ -18,7 +18,7 @@ META = dict(
                "copy (index and history), a run started on one instance is re-created identically elsewhere, a step "
                "depends on the run table only; per step (C03_sync_step) - a peer holding the same runs as the sender "
                "held before the event holds the same runs as the sender afterwards, pattern by pattern and in order, for "
-               "non-singleton patterns under identifier-hygiene side conditions (active ids unique, drawn ids fresh, "
+               "ALL patterns incl. singleton ones (>= 2 blocks) under identifier-hygiene side conditions (active ids unique, drawn ids fresh, "
                "records name existing patterns, the receiver remembers none of the note's runs as finished); cluster "
                "(C03_replicas_equal) - from the initial state, for EVERY routing of EVERY stream with messages delivered "
                "between consecutive inputs, all replicas hold the same runs after every input, so any survivor of any "
@@ -228,8 +228,11 @@ def run(ctx, res):
     for (cfg, n, inputs), (out, eq) in zip(cases, dres):
         coq_cases.append((SC.cluster_case_coq(cfg, n, inputs), out))
         n_eq += 1 if eq else 0
-        single = any(p["single"] for _ph, ps in cfg["phen"] for p in ps)
-        if not eq and not single:
+        # the theorem's hypothesis on configurations: a singleton pattern has at least two blocks
+        single1 = any(p["single"] and len(p["blocks"]) < 2 for _ph, ps in cfg["phen"] for p in ps)
+        res.count("sync_cases_with_singleton_patterns" if any(p["single"] for _ph, ps in cfg["phen"] for p in ps)
+                  else "sync_cases_without_singleton_patterns")
+        if not eq and not single1:
             res.mismatches.append(dict(case=dict(cfg=cfg, n=n, inputs=inputs), impl="replica tables differ after a synchronous step, or a receiver filtered part of the note",
                                        model="C03_sync_step and its side conditions"))
     res.extra["sync_premise_checked_on"] = len(cases)
